@@ -193,6 +193,19 @@ def judge(ctx, idx, case):
         ctx.count("corpus_files")
     else:
         doc = common.build(case["ops"]).doc
+    if idx % 7 == 3:
+        # a shallow copy of the document (copy.copy) gets one more record under an identifier the document already uses; whatever the
+        # two then share, unified() of the document is still the unification of the records the document itself lists
+        import copy
+        try:
+            c2 = copy.copy(doc)
+            el = [x for x in doc.get_records() if x.identifier is not None]
+            if el:
+                x = el[idx % len(el)]
+                c2.new_record(x.get_type(), x.identifier, None, [(pm.Namespace("cp", "http://copy.example/")["added"], idx)])
+                ctx.count("shallow_copy_got_a_record_under_an_existing_identifier")
+        except pm.ProvException:
+            pass
     od = strict.ordered(doc)
     problems = []
     judge_container(ctx, doc, "document", problems)
